@@ -188,7 +188,7 @@ def hostile_ns_map(rng, model):
     if kind == "competing-default":
         m += [["", rng.choice(uris)], [None, other]]
     if kind == "reserved":
-        m.append([rng.choice(["xml", "xmlns", "xsi", "xs", "xml"]), rng.choice(uris + [other, XSI, "http://www.w3.org/XML/1998/namespace"])])
+        m.append([rng.choice(["xml", "xmlns", "xsi", "xs", "xml", "p", ""]), rng.choice(uris + [other, XSI, "http://www.w3.org/XML/1998/namespace", "http://www.w3.org/XML/1998/namespace", "http://www.w3.org/2000/xmlns/"])])
     if kind == "invalid":
         m.append([rng.choice(["a b", "1x", "a:b", "-a", "é", "p.q", "x<y", "", "·z"]), rng.choice(uris)])
     if kind == "empty-uri":
@@ -264,6 +264,49 @@ def inject_hostile_text(rng, model, loaded, obj):
     return o2, ch
 
 
+HOSTILE_NAMES = ["a b", "a:b", "p:x", "1x", "-a", "x<y", "", "a\tb", "{urn:x}a b", "{urn:x}p:q", "a/b", "a&b", "x y z", "{urn:x}"]
+
+
+def inject_hostile_name(rng, model, obj):
+    """Names that come from instance data: a key of an attributes map or the qname of a generic element is replaced by
+    something that is no (qualified) name. Returns (obj2, name) or None."""
+    import copy
+    import dataclasses
+
+    if any(c.frozen for c in model.classes):
+        return None
+    o2 = copy.deepcopy(obj)
+    targets = []
+
+    def walk(o):
+        if dataclasses.is_dataclass(o) and not isinstance(o, type):
+            if type(o).__name__ == "AnyElement" and o.qname:
+                targets.append(("qname", o))
+            for f in dataclasses.fields(o):
+                v = getattr(o, f.name)
+                if isinstance(v, dict) and f.name != "attributes" and v:
+                    targets.append(("key", v))
+                elif isinstance(v, dict) and v:
+                    targets.append(("key", v))
+                elif isinstance(v, (list, tuple)):
+                    for x in v:
+                        walk(x)
+                else:
+                    walk(v)
+
+    walk(o2)
+    if not targets:
+        return None
+    kind, t = rng.choice(targets)
+    name = rng.choice(HOSTILE_NAMES)
+    if kind == "qname":
+        t.qname = name
+    else:
+        k = rng.choice(sorted(t))
+        t[name] = t.pop(k)
+    return o2, name
+
+
 def run_case(ctx, case):
     rng = ctx.rng
     model = case.model
@@ -296,6 +339,14 @@ def run_case(ctx, case):
             for writer in bc.WRITERS:
                 ctx.case(sfp, ofp, repr(hcfg), writer, "hostile-prefixes", nontrivial=nontrivial)
                 judge(ctx, model, case.style, case.loaded, obj, hcfg, writer, hostile="prefixes")
+        # hostile names
+        inj = inject_hostile_name(rng, model, obj)
+        if inj:
+            o2, nm = inj
+            ctx.feature("hostile-names")
+            for writer in bc.WRITERS:
+                ctx.case(sfp, bc.obj_fp(model, o2), repr(cfg), writer, "hostile-names", nontrivial=nontrivial)
+                judge(ctx, model, case.style, case.loaded, o2, cfg, writer, hostile="names")
         # hostile text
         inj = inject_hostile_text(rng, model, case.loaded, obj)
         if inj:
